@@ -151,7 +151,8 @@ impl<'a> LazyDbcParser<'a> {
             return Err(Error::OutOfBounds(format!(
                 "Record index out of bounds: {} (max: {})",
                 index,
-                self.header.record_count - 1
+                // An empty file has no valid index; do not underflow reporting that
+                self.header.record_count.saturating_sub(1)
             )));
         }
 
